@@ -246,6 +246,36 @@ func runC06(t *simrt.Tape, o Opts) Outcome {
 					}
 				}
 			}
+			// the same attempts with every handler at work at once: each presents the others' records to
+			// its own session while those sessions read their own
+			tasks = tasks[:0]
+			for _, h := range res {
+				h := h
+				if h.se == nil || len(w.Viols) > 0 {
+					continue
+				}
+				tasks = append(tasks, s.Go("reader", func() {
+					for _, g := range res {
+						if g.rec == nil || s.Ending() {
+							continue
+						}
+						out, op := w.Decrypt(h.se, &g.rec.DRR)
+						if op.Panic != "" {
+							return
+						}
+						count(st.Oracle, "foreign-decrypt-concurrent")
+						if g.part != h.part && op.Err == nil {
+							w.Violate("foreign-decrypt-ok", "foreign-decrypt-ok/concurrent-readers", "while other sessions were reading, the session of partition %q decrypted a record of partition %q (%d bytes)", h.part, g.part, len(out))
+						}
+						if g.part == h.part && (op.Err != nil || !bytes.Equal(out, g.rec.Payload)) {
+							w.Violate("own-decrypt-failed", "own-decrypt-failed/concurrent-readers", "while other sessions were reading, partition %q could not decrypt its own record: %v", h.part, op.Err)
+						}
+					}
+				}))
+			}
+			for _, tk := range tasks {
+				s.Join(tk)
+			}
 		}
 		// own records still decrypt
 		for _, rec := range w.Recs {
